@@ -146,6 +146,30 @@ def xargs_runs(ctx):
                 ctx.violation("xargs CMD with a %d-byte command path and %d one-byte arguments: exit %d (%s)" % (len(cmd), count, p.returncode, p.stderr.decode("utf-8", "replace")[:120]),
                               {"property": "C06", "kind": "long-command-path", "path_length": len(cmd), "arguments": count, "exit": p.returncode,
                                "stderr": p.stderr.decode("utf-8", "replace")[:300]})
+        # -I: the command line exists only after the line has been put in; it is that line which must fit (per argument and in total)
+        for rl, cmdargs, lines in ((8 << 20, [b"{}{}"], [b"ok", b"z" * 70000, b"after"]),
+                                   (8 << 20, [b"{}{}"], [b"ok", b"z" * 65535, b"after"]),
+                                   (256 * 1024, [b"{}", b"{}", b"{}", b"{}"], [b"ok", b"y" * 15000, b"after"]),
+                                   (256 * 1024, [b"{}", b"{}", b"{}"], [b"ok", b"y" * rng.choice([15000, 1000, 18000]), b"after"])):
+            rec = os.path.join(td, "recI")
+            if os.path.exists(rec):
+                os.remove(rec)
+            env = dict(xc.ENV, FUV_RECORD=rec)
+            cmd = [fw.FUV.encode(), b"record"] + cmdargs
+            p = subprocess.run([fw.XARGS, "-I{}"] + [c.decode() for c in cmd], input=b"\n".join(lines) + b"\n", env=env, preexec_fn=pre(rl),
+                               stdout=subprocess.DEVNULL, stderr=subprocess.PIPE, timeout=300)
+            runs = sum(1 for _ in open(rec)) if os.path.exists(rec) else 0
+            amax = int(subprocess.run(["getconf", "ARG_MAX"], preexec_fn=pre(rl), capture_output=True).stdout)
+            toks = [(l, "h") for l in lines]
+            m = fw.run_lines(fw.FUVM, [xc.model_line(1, None, None, False, False, cmd, toks, False, [], replace=True, env=env, arg_max=amax, repl_R=b"{}")], shards=1)[0].split(" ")
+            ctx.count(("substituted", rl, tuple(cmdargs), tuple(len(l) for l in lines)), True, ["substituted-line", "model-exit=%s" % m[0]])
+            if p.returncode in (126, 127) or b"too long" in p.stderr or (str(p.returncode), runs) != (m[0], len(m) - 1):
+                ctx.violation("xargs -I{} CMD %s with lines of %s bytes under stack limit %d: exit %d after %d invocation(s) (%s); model: exit %s after %d"
+                              % (cmdargs, [len(l) for l in lines], rl, p.returncode, runs, p.stderr.decode("utf-8", "replace")[:100], m[0], len(m) - 1),
+                              {"property": "C06", "kind": "substituted-line", "arguments": [c.decode() for c in cmdargs], "line_lengths": [len(l) for l in lines],
+                               "stack_limit": rl, "exit": p.returncode, "invocations": runs, "model_exit": m[0], "model_invocations": len(m) - 1,
+                               "stderr": p.stderr.decode("utf-8", "replace")[:300],
+                               "explain": "the substituted command line must be put to the system limits before it is run (C06_substituted_*): the operating system must never be the one that refuses it"})
         # single arguments around the per-argument limit
         for L, exp_rc, exp_runs in ((131071, 0, 1), (131072, 1, 0), (200000, 1, 0), (131070, 0, 1)):
             rec = os.path.join(td, "rec1")
